@@ -412,6 +412,11 @@ def generate_project(rng, size="small", fw=None, micro800=False):
     if not micro800:
         for i in range(rng.randint(0, 3)):
             pn = _name(rng, scope, rng.choice([3, 11, 12, 20]))
+            if rng.random() < 0.15:   # program names that begin like the scope prefix itself ("Program:Program1")
+                pn2 = rng.choice(["Program1", "ProgramA", "Program", "Programs_x", "program2", "Prog"])
+                if pn2.lower() not in scope and pn2.lower() not in {x.lower() for x in prj.programs}:
+                    scope.add(pn2.lower())
+                    pn = pn2
             pinst = new_instance()
             pscope = set()
             ptags = [new_tag(pscope, program=pn) for _ in range(rng.randint(0, 5))]
@@ -438,6 +443,15 @@ def generate_project(rng, size="small", fw=None, micro800=False):
             s = new_tag(scope)
             s.name = "__" + s.name
             s.kind = "hidden"
+            syms.append(s)
+        for i in range(rng.randint(0, 2)):
+            # other system symbols: a user tag name cannot contain ':' - only module-defined tags (":I" ":O" ":C" ":S") do; any other
+            # colon-named symbol is the controller's own (kept apart from "map" so that the census shows them)
+            s = new_tag(scope)
+            s.name = rng.choice(["Trend", "Axis", "Msg", "Grp", "Wdg"]) + ":" + rng.choice(["x", "q7", "main", "Pump1", "a_b"]) + rng.choice(["", "", ":data"])
+            if any(x.name == s.name for x in syms):
+                continue
+            s.kind = "map"
             syms.append(s)
         for i in range(rng.randint(0, 2)):
             s = new_tag(scope)
